@@ -34,6 +34,39 @@ Theorem C16_confinement_repaired :
 Proof. exact resolve_off_confined. Qed.
 Print Assumptions C16_confinement_repaired.
 
+(* the directory a //{/...} import is confined to is the specification's module
+   root of the importing directory: the nearest ancestor-or-self holding go.mod *)
+Theorem C16_root_import_confined_to_nearest_module :
+  forall (q : Quirks) cwd gomod name source_dir stats p,
+    resolve q cwd gomod false name source_dir = resolve quirks_off cwd gomod false name source_dir ->
+    resolve q cwd gomod false name source_dir = (stats, Read p) ->
+    exists root, Root gomod (abs_path cwd source_dir) (Some root) /\ gomod root = true /\ root <> [] /\ beneath root p.
+Proof.
+  intros q cwd gomod name sd stats p Hg H. rewrite Hg in H.
+  exact (resolve_off_confined_at cwd gomod false name sd stats p H).
+Qed.
+Print Assumptions C16_root_import_confined_to_nearest_module.
+
+Theorem C16_module_root_unique : forall gomod cur a b, Root gomod cur a -> Root gomod cur b -> a = b.
+Proof. exact Root_unique. Qed.
+Print Assumptions C16_module_root_unique.
+
+(* the per-evaluation root cache (LoadRoot first, StoreRoot for every directory
+   passed by a successful walk) is transparent: starting from the empty cache,
+   whatever was resolved earlier, the cached search answers the specification's
+   root and keeps the cache sound *)
+Theorem C16_root_cache_transparent :
+  forall gomod fuel c cur r c',
+    cache_sound gomod c ->
+    find_root_cached fuel gomod c cur = Some (r, c') ->
+    Root gomod cur r /\ cache_sound gomod c'.
+Proof. exact find_root_cached_transparent. Qed.
+Print Assumptions C16_root_cache_transparent.
+
+Theorem C16_empty_root_cache_sound : forall gomod, cache_sound gomod [].
+Proof. exact cache_sound_nil. Qed.
+Print Assumptions C16_empty_root_cache_sound.
+
 (* a ./ import from a directory that is inside the module stays inside the module *)
 Theorem C16_relative_import_stays_in_module :
   forall q cwd gomod name source_dir stats p root,
